@@ -194,10 +194,11 @@ static void drv_step(struct cmd *c)
 			off += (size_t) r;
 		}
 		free(held); held = 0; held_len = 0;
-		if (r == MissingData && !off) {
-			held = (uint8_t *) malloc(total ? total : 1);
-			memcpy(held, piece, total);
-			held_len = total;
+		if (r == MissingData) {
+			/* what was not taken is offered again in front of the next piece */
+			held_len = total - off;
+			held = (uint8_t *) malloc(held_len ? held_len : 1);
+			memcpy(held, piece + off, held_len);
 		}
 		if (off) m_started = 1;
 		if (r < 0 && r != MissingData) m_refused = 1;
